@@ -837,24 +837,74 @@ def _fn_value_call(e, s2, f, args, post):
 
 
 def run_pipe(e, st, elems, stages):
-    """the collected String: elements pass the stages in order, one element after the other (as the lazy adaptors do)"""
+    """the collected String: elements pass the stages in order, one element after the other (as the lazy adaptors do).
+    `elems` is a list of concrete elements and lazy segments ('takewhile', ref to a Peekable<Chars>, closure): such a segment pulls
+    characters from the borrowed iterator until the closure answers false - the character that fails the test is consumed too, as
+    Iterator::take_while does."""
+    def pull(s2, ref):
+        _, chars, pos, pk = e.rd(s2, ref)
+        if pk is not None:
+            e.wr(s2, ref, ('peek', chars, pos, None))
+            return None if pk[2] == 'None' else pk[3][0]
+        if pos < len(chars):
+            e.wr(s2, ref, ('peek', chars, pos + 1, None)); return chars[pos]
+        return None
+
     def element(s2, idx, kept):
         if idx == len(elems): return ('str', tuple(kept))
         s2.steps += 1
-        return stage(s2, idx, kept, elems[idx], 0)
+        el = elems[idx]
+        if isinstance(el, tuple) and el and el[0] == 'takewhile':
+            c = pull(s2, el[1])
+            if c is None: return element(s2, idx + 1, kept)
 
-    def stage(s2, idx, kept, val, k):
-        if k == len(stages): return element(s2, idx + 1, kept + [val])
+            def post(s3, r, c=c):
+                if r is True or r is False or not is_sym(r):
+                    return stage(s3, idx, kept, c, 0, again=True) if r else element(s3, idx + 1, kept)
+                return [(r, lambda s4: stage(s4, idx, kept, c, 0, again=True)), (b_not(r), lambda s4: element(s4, idx + 1, kept))]
+            return _fn_value_call(e, s2, el[2], [e.temp_ref(s2, c)], post)
+        return stage(s2, idx, kept, el, 0)
+
+    def stage(s2, idx, kept, val, k, again=False):
+        nxt = idx if again else idx + 1
+        if k == len(stages): return element(s2, nxt, kept + [val])
         kind, f = stages[k]
         if kind == 'map':
-            return _fn_value_call(e, s2, f, [val], lambda s3, r: stage(s3, idx, kept, r, k + 1))
+            return _fn_value_call(e, s2, f, [val], lambda s3, r: stage(s3, idx, kept, r, k + 1, again))
+        if kind == 'filter_map':
+            def postfm(s3, r):
+                if r[0] == 'adt':
+                    return stage(s3, idx, kept, r[3][0], k + 1, again) if r[2] == 'Some' else element(s3, nxt, kept)
+                if r[0] == 'sadt':
+                    some_i = list(r[3]).index('Some')
+                    return [(r[2] == some_i, lambda s4: stage(s4, idx, kept, r[3]['Some'][0], k + 1, again)), (r[2] != some_i, lambda s4: element(s4, nxt, kept))]
+                raise Unsupported('filter_map closure result ' + str(r)[:40])
+            return _fn_value_call(e, s2, f, [val], postfm)
 
         def post(s3, r):
             if r is True or r is False or not is_sym(r):
-                return stage(s3, idx, kept, val, k + 1) if r else element(s3, idx + 1, kept)
-            return [(r, lambda s4: stage(s4, idx, kept, val, k + 1)), (b_not(r), lambda s4: element(s4, idx + 1, kept))]
+                return stage(s3, idx, kept, val, k + 1, again) if r else element(s3, nxt, kept)
+            return [(r, lambda s4: stage(s4, idx, kept, val, k + 1, again)), (b_not(r), lambda s4: element(s4, nxt, kept))]
         return _fn_value_call(e, s2, f, [e.temp_ref(s2, val)], post)
     return [(T, lambda s2: element(s2, 0, []))]
+
+
+@summary(r'^std::iter::once$|^core::iter::once$|^once$')
+def _(e, st, raw, n, a, m): return [(T, ('pipe', (a[0],), ()))]
+
+
+@summary(r'^<&mut Peekable<Chars> as Iterator>::take_while\b|^<Peekable<Chars> as Iterator>::take_while\b')
+def _(e, st, raw, n, a, m):
+    ref = a[0]
+    if ref[0] != 'ref': raise Unsupported('take_while over a Peekable by value')
+    return [(T, ('pipe', (('takewhile', ref, a[1]),), ()))]
+
+
+@summary(r'^<(?:std::iter::)?(?:Once|Chain|Filter|Map|FilterMap|TakeWhile)<.*> as Iterator>::chain\b')
+def _(e, st, raw, n, a, m):
+    x, y = a[0], a[1]
+    if x[0] != 'pipe' or y[0] != 'pipe' or x[2] or y[2]: raise Unsupported('chain of adaptors that already carry stages')
+    return [(T, ('pipe', x[1] + y[1], ()))]
 
 
 @summary(r'^core::str::<impl str>::is_ascii$')
@@ -879,14 +929,14 @@ def _(e, st, raw, n, a, m):
     return [(T, ('pipe', tuple(elems), ((it[2] if it[0] == 'pipe' else ()) + ((kind, a[1]),))))]
 
 
-@summary(r'^<(?:std::iter::)?(?:Filter|Map)<.*> as Iterator>::(filter|map)\b')
+@summary(r'^<(?:std::iter::)?(?:Filter|Map|Once|Chain|FilterMap|TakeWhile)<.*> as Iterator>::(filter_map|filter|map)\b')
 def _(e, st, raw, n, a, m):
     it = a[0]
     if it[0] != 'pipe': raise Unsupported('adaptor over ' + str(it)[:40])
     return [(T, ('pipe', it[1], it[2] + ((m.group(1), a[1]),)))]
 
 
-@summary(r'^<(?:std::iter::)?(?:Filter|Map)<.*> as Iterator>::collect\b|^<(?:std::str::)?Bytes as Iterator>::collect\b')
+@summary(r'^<(?:std::iter::)?(?:Filter|Map|Once|Chain|FilterMap|TakeWhile)<.*> as Iterator>::collect\b|^<(?:std::str::)?Bytes as Iterator>::collect\b')
 def _(e, st, raw, n, a, m):
     it = a[0]
     if it[0] != 'pipe' or 'String' not in raw: raise Unsupported('collect of %s into %s' % (str(it)[:30], raw[-40:]))
